@@ -9,7 +9,10 @@ import (
 	"math/big"
 	"strings"
 
+	sdkmath "cosmossdk.io/math"
 	sdk "github.com/cosmos/cosmos-sdk/types"
+
+	cdptypes "github.com/kava-labs/kava/x/cdp/types"
 
 	c "kavaverif/harness/common"
 	"kavaverif/harness/cmd/c04/sim"
@@ -88,10 +91,129 @@ func directed(w *sim.World, out *c.Out, r *c.Rng) {
 		s.PostPrice(0, sdk.MustNewDecFromStr("0.012"), false)
 		s.PostPrice(1, sdk.MustNewDecFromStr("0.012"), false)
 		// end of block sets the price; keep the begin blocker from liquidating by using interval 2
-		s.P.LiquidationBlockInterval = 1000
-		kapp.SetParams(w.App, s.Ctx, "cdp", &s.P, func() { w.Keeper().SetParams(s.Ctx, s.P) })
+		np := s.P
+		np.LiquidationBlockInterval = 1000
+		s.SetParamsNow(np, "block-interval")
 		s.NextBlock(10, "liq")
 		s.Liquidate(7, 5, 0, "liq")
+	}
+	govDirected(w, out, r)
+}
+
+// edit returns a governance change for Seq.Pending that applies f to the parameters in force
+func edit(tag string, f func(p *cdptypes.Params)) func(p *cdptypes.Params) string {
+	return func(p *cdptypes.Params) string { f(p); return tag }
+}
+
+func without(p *cdptypes.Params, name string) {
+	var cps cdptypes.CollateralParams
+	for _, e := range p.CollateralParams {
+		if e.Type != name {
+			cps = append(cps, e)
+		}
+	}
+	p.CollateralParams = cps
+}
+
+// governance in the middle of a history (directed; the random histories draw the same kinds of change)
+func govDirected(w *sim.World, out *c.Out, r *c.Rng) {
+	// a collateral type is REMOVED while it has CDPs (one with a third-party deposit), blocks pass, prices crash,
+	// every operation on it is tried, then it is listed again (at the end of the list, other fee and ratio):
+	// accrual resumes over the whole gap, the owner closes the CDP and everybody gets the deposit back
+	{
+		s := w.NewSeq(out, "c04.op", -4, r.Fork(9004), sim.DefaultParams())
+		s.AfterCase = goChecks(out, s)
+		col := new(big.Int).Mul(bi(200), sim.Pow10(6))
+		s.Create(4, 3, col, 4, bi(50000000), 0, "gov")   // xrp-a
+		s.Deposit(4, 8, 3, bi(7000000), 4, "gov")
+		s.Create(5, 3, col, 4, bi(90000000), 0, "gov")   // a second xrp-a position
+		s.Create(4, 0, new(big.Int).Mul(bi(100), sim.Pow10(8)), 2, bi(20000000), 0, "gov") // bnb-a stays listed
+		s.NextBlock(3600, "gov")
+		s.Pending = edit("type-removed-with-cdps", func(p *cdptypes.Params) { without(p, "xrp-a") })
+		s.NextBlock(60, "gov-removed")
+		s.PostPrice(4, sdk.MustNewDecFromStr("0.0001"), false)
+		s.PostPrice(5, sdk.MustNewDecFromStr("0.0001"), false)
+		s.NextBlock(86400, "gov-removed-crash")
+		s.Deposit(4, 4, 3, bi(1000000), 4, "gov-removed")
+		s.Withdraw(4, 8, 3, bi(1), 4, "gov-removed")
+		s.Draw(4, 3, bi(1000000), 0, "gov-removed")
+		s.Repay(4, 3, bi(1000000), 0, "gov-removed")
+		s.Repay(4, 3, new(big.Int).Mul(bi(1000), sim.Pow10(6)), 0, "gov-removed-close")
+		s.Liquidate(7, 5, 3, "gov-removed")
+		s.Create(6, 3, col, 4, bi(50000000), 0, "gov-removed")
+		s.Repay(4, 0, bi(1000000), 0, "gov-other-type") // the listed type keeps working
+		s.PostPrice(4, sdk.MustNewDecFromStr("2.0"), false)
+		s.PostPrice(5, sdk.MustNewDecFromStr("2.0"), false)
+		s.NextBlock(86400*30, "gov-removed-recover")
+		s.Pending = edit("type-readded-with-cdps", func(p *cdptypes.Params) {
+			cp := sim.DefaultCollateral(3)
+			cp.StabilityFee = sdk.MustNewDecFromStr("1.00000001")
+			cp.LiquidationRatio = sdk.MustNewDecFromStr("1.25")
+			p.CollateralParams = append(p.CollateralParams, cp)
+		})
+		s.NextBlock(5, "gov-readded")
+		s.NextBlock(3600, "gov-readded")
+		s.Draw(4, 3, bi(1000000), 0, "gov-readded")
+		s.Withdraw(4, 8, 3, bi(1000000), 4, "gov-readded")
+		s.Repay(4, 3, new(big.Int).Mul(bi(1000), sim.Pow10(6)), 0, "gov-readded-close")
+		s.Liquidate(7, 5, 3, "gov-readded")
+	}
+	// the stability fee changes between two accruals (1.0 → maximum → pool value), the debt limits drop below
+	// the existing debt, the debt floor rises above an existing principal, the list is reordered
+	{
+		s := w.NewSeq(out, "c04.op", -5, r.Fork(9005), sim.DefaultParams())
+		s.AfterCase = goChecks(out, s)
+		s.Create(3, 2, new(big.Int).Mul(bi(50), sim.Pow10(18)), 3, bi(40000000), 0, "gov") // eth-a
+		s.Create(4, 2, new(big.Int).Mul(bi(70), sim.Pow10(18)), 3, bi(55000000), 0, "gov")
+		s.NextBlock(86400, "gov-fee")
+		s.Pending = edit("fee-one", func(p *cdptypes.Params) { sim.FindCollateral(p, 2).StabilityFee = sdk.OneDec() })
+		s.NextBlock(86400, "gov-fee-one")
+		s.Draw(3, 2, bi(1000000), 0, "gov-fee-one")
+		s.Pending = edit("fee-max", func(p *cdptypes.Params) {
+			sim.FindCollateral(p, 2).StabilityFee = sdk.MustNewDecFromStr("1.000000051034942716")
+		})
+		s.NextBlock(86400*30, "gov-fee-max")
+		s.Repay(4, 2, bi(1000000), 0, "gov-fee-max")
+		s.Pending = edit("limit-below-debt+global-limit-below-debt+debt-floor+list-reordered", func(p *cdptypes.Params) {
+			sim.FindCollateral(p, 2).DebtLimit = sdk.NewCoin("usdx", sdkmath.NewInt(50000000))
+			p.GlobalDebtLimit = sdk.NewCoin("usdx", sdkmath.NewInt(60000000))
+			p.DebtParam.DebtFloor = sdkmath.NewInt(100000000)
+			p.CollateralParams[0], p.CollateralParams[2] = p.CollateralParams[2], p.CollateralParams[0]
+		})
+		s.NextBlock(3600, "gov-limits")
+		s.Draw(3, 2, bi(1), 0, "gov-limit-refused")
+		s.Create(5, 2, new(big.Int).Mul(bi(70), sim.Pow10(18)), 3, bi(100000000), 0, "gov-limit-refused")
+		s.Repay(3, 2, bi(1000000), 0, "gov-floor-refused")
+		s.Deposit(3, 3, 2, sim.Pow10(18), 3, "gov-limits")
+		s.Withdraw(3, 3, 2, sim.Pow10(18), 3, "gov-limits")
+		s.NextBlock(3600, "gov-limits")
+		s.Repay(3, 2, new(big.Int).Mul(bi(1000), sim.Pow10(6)), 0, "gov-close")
+	}
+	// a collateral type that was never listed is added in the middle of a run; markets of another type are swapped
+	{
+		s := w.NewSeq(out, "c04.op", -6, r.Fork(9006), sim.DefaultParams())
+		s.AfterCase = goChecks(out, s)
+		col := new(big.Int).Mul(bi(300), sim.Pow10(6))
+		s.Create(3, 4, col, 4, bi(20000000), 0, "gov-not-listed-yet")
+		s.Create(3, 3, col, 4, bi(20000000), 0, "gov")
+		s.PostPrice(5, sdk.MustNewDecFromStr("1.0"), false) // xrp:usd:30 ≠ xrp:usd
+		s.Pending = edit("type-added+markets-swapped", func(p *cdptypes.Params) {
+			cp := sim.DefaultCollateral(4)
+			cp.LiquidationRatio = sdk.MustNewDecFromStr("2.0")
+			p.CollateralParams = append(cdptypes.CollateralParams{cp}, p.CollateralParams...)
+			x := sim.FindCollateral(p, 3)
+			x.SpotMarketID, x.LiquidationMarketID = x.LiquidationMarketID, x.SpotMarketID
+		})
+		s.NextBlock(10, "gov-added")
+		s.Create(3, 4, col, 4, bi(20000000), 0, "gov-added")
+		s.Create(4, 4, col, 4, bi(300000000), 0, "gov-added-at-ratio")
+		s.Deposit(3, 7, 4, bi(5000000), 4, "gov-added")
+		s.NextBlock(86400, "gov-added")
+		s.Draw(3, 3, bi(1000000), 0, "gov-markets-swapped")
+		s.Withdraw(3, 3, 3, bi(1000000), 4, "gov-markets-swapped")
+		s.PostPrice(4, sdk.MustNewDecFromStr("0.3"), false)
+		s.NextBlock(60, "gov-added-price-drop")
+		s.NextBlock(60, "gov-added")
 	}
 }
 
@@ -110,6 +232,9 @@ func main() {
 		}
 		s := w.NewSeq(out, "c04.op", seq, r, sim.RandomParams(r))
 		s.AfterCase = goChecks(out, s)
+		if seq%4 != 0 { // three histories in four see governance parameter changes at block boundaries
+			s.GovPct = 30
+		}
 		for i := 0; i < nops; i++ {
 			s.Step("mixed")
 		}
